@@ -98,7 +98,9 @@ class Explorer:
             if self.hangs >= 3:
                 # every further hanging run costs a full watchdog period: stop exploring, the verdict is already clear
                 raise RuntimeError("three runs hung: exploration stopped (the violations found so far are reported)")
-        if model and run.exc not in ("CapHit", "Hang"):
+        # (a big run that ended with an exception of the code under test: the direct oracles have it; the extracted model
+        # would replay the whole remaining run against default answers, which is quadratic in the number of atoms)
+        if model and run.exc not in ("CapHit", "Hang") and not (run.exc not in (None, "test") and tc_len(ctx["tc"]) > 300):
             used = "".join(a for _, _, a in run.seen)
             self.lines.append(model_line(strategy, cfg, ctx["tc"], file0, used, clock, extra=extra,
                                          steps=run.steps if replay else None))
